@@ -31,7 +31,7 @@ CMP_CALLS = {
 def _cmp_call(name):
     last = name.rsplit("::", 1)[-1]
     m = {"lt": "Lt", "le": "Le", "gt": "Gt", "ge": "Ge", "eq": "Eq", "ne": "Ne"}
-    if last in m and ("PartialOrd" in name or "PartialEq" in name or "core::cmp::impls::" in name):
+    if last in m and ("PartialOrd" in name or "PartialEq" in name or name.startswith(("core::cmp::", "core::tuple::", "core::array::", "core::slice::", "core::option::", "alloc::vec::", "alloc::string::"))):
         return m[last]
     return None
 
